@@ -112,6 +112,9 @@ func (fx *FnCtx) doCallVals(st *State, fr *callFrame, site ssa.Instruction, cc *
 		return
 	}
 	con := fx.eng.CS.Funcs[key]
+	if con != nil && con.LockOnly {
+		con = nil // a lock-sweep entry says nothing to callers: treat the callee as contract-less (inline / unknown code)
+	}
 	if con != nil {
 		fx.applyContract(st, fr, site, key, con, callee, cc, fnv, args, rt, k)
 		return
